@@ -210,8 +210,8 @@ func init() {
 		e.realN++
 		y := c.Var(fmt.Sprintf("ranged!%d", e.realN), IntSort)
 		e.assumeQuiet(c.Eq(y, x))
-		e.assumeQuiet(c.RCmp(OpRLe, c.IntConst(lo), y))
-		e.assumeQuiet(c.RCmp(OpRLe, y, c.IntConst(hi)))
+		e.assumeQuiet(c.RCmpRaw(OpRLe, c.IntConst(lo), y))
+		e.assumeQuiet(c.RCmpRaw(OpRLe, y, c.IntConst(hi)))
 		c.setInfo(y, big.NewInt(lo), big.NewInt(hi), 0)
 		return y, nil
 	})
@@ -343,6 +343,73 @@ func init() {
 		}
 	}
 
+	// fmt.Sscanf contract stubs (C19): "%d" into *int32 on a concrete string (real strconv semantics via fmt),
+	// "%X" into *[]byte on a string of possibly symbolic characters: the maximal prefix of hex digit pairs;
+	// error if there is no pair, or if a pair's second character is missing or not a hex digit.
+	intrinsics["fmt.Sscanf"] = func(e *Exec, fn *ssa.Function, args []Value, caller *Frame) (Value, *GoPanic) {
+		c := e.ctx
+		format := concStr(e, args[1], "Sscanf format")
+		targets := args[2].(SliceV)
+		if targets.len != 1 {
+			e.unsupported("fmt.Sscanf with %d targets", targets.len)
+		}
+		tgt := e.sliceGet(targets, 0).(IfaceV).val.(Ptr)
+		in := args[0].(StrV)
+		switch format {
+		case "%d":
+			if in.sym != nil {
+				e.unsupported("fmt.Sscanf(%%d) on symbolic characters")
+			}
+			var v int32
+			n, err := fmt.Sscanf(in.s, "%d", &v)
+			if err != nil {
+				return TupleV{e.intTerm(int64(n)), e.newError("sscanf: " + err.Error())}, nil
+			}
+			e.store(tgt, c.Const(32, uint64(uint32(v))))
+			return TupleV{e.intTerm(1), IfaceV{}}, nil
+		case "%X", "%x":
+			chars := e.strBytes(in)
+			isHex := func(ch *Term) *Term {
+				rng := func(lo, hi byte) *Term {
+					return c.BAnd(c.Cmp(OpUle, c.Const(8, uint64(lo)), ch), c.Cmp(OpUle, ch, c.Const(8, uint64(hi))))
+				}
+				return c.BOr(rng('0', '9'), c.BOr(rng('a', 'f'), rng('A', 'F')))
+			}
+			val := func(ch *Term) *Term {
+				d := c.BinBV(OpSub, ch, c.Const(8, '0'))
+				lo := c.BinBV(OpAdd, c.BinBV(OpSub, ch, c.Const(8, 'a')), c.Const(8, 10))
+				up := c.BinBV(OpAdd, c.BinBV(OpSub, ch, c.Const(8, 'A')), c.Const(8, 10))
+				return c.Ite(c.Cmp(OpUle, ch, c.Const(8, '9')), d, c.Ite(c.Cmp(OpUle, c.Const(8, 'a'), ch), lo, up))
+			}
+			var out []*Term
+			i := 0
+			for i < len(chars) {
+				if !e.branch(isHex(chars[i]), nil) {
+					break // first character of a pair is not a hex digit: the scan stops here
+				}
+				if i+1 >= len(chars) {
+					return TupleV{e.intTerm(0), e.newError("sscanf: unexpected EOF")}, nil
+				}
+				if !e.branch(isHex(chars[i+1]), nil) {
+					return TupleV{e.intTerm(0), e.newError("sscanf: illegal hex digit")}, nil
+				}
+				out = append(out, c.BinBV(OpOr, c.BinBV(OpShl, val(chars[i]), c.Const(8, 4)), val(chars[i+1])))
+				i += 2
+			}
+			if len(out) == 0 {
+				msg := "sscanf: no hex data for %x string"
+				if len(chars) == 0 {
+					msg = "sscanf: unexpected EOF"
+				}
+				return TupleV{e.intTerm(0), e.newError(msg)}, nil
+			}
+			e.store(tgt, e.bytesToSlice(out))
+			return TupleV{e.intTerm(1), IfaceV{}}, nil
+		}
+		e.unsupported("fmt.Sscanf format %q", format)
+		return nil, nil
+	}
+
 	// ---- reflect ----
 	intrinsics["reflect.DeepEqual"] = func(e *Exec, fn *ssa.Function, args []Value, caller *Frame) (Value, *GoPanic) {
 		return e.deepEq(args[0], args[1], 0), nil
@@ -466,8 +533,8 @@ func init() {
 			for i := 0; i < n; i++ {
 				e.realN++
 				y := c.Var(fmt.Sprintf("byte!%d", e.realN), IntSort)
-				e.assumeQuiet(c.RCmp(OpRLe, c.IntConst(0), y))
-				e.assumeQuiet(c.RCmp(OpRLe, y, c.IntConst(255)))
+				e.assumeQuiet(c.RCmpRaw(OpRLe, c.IntConst(0), y))
+				e.assumeQuiet(c.RCmpRaw(OpRLe, y, c.IntConst(255)))
 				c.setInfo(y, big.NewInt(0), big.NewInt(255), 0)
 				bs[i] = y
 				sum = c.RBin(OpRAdd, c.RBin(OpRMul, sum, c.IntConst(256)), y)
@@ -725,8 +792,8 @@ func (e *Exec) arithRangeVar(t *Term, w int, signed bool) {
 		ty = types.Typ[types.Uint64]
 	}
 	lo, hi := typeRange(e, ty)
-	e.assumeQuiet(e.ctx.RCmp(OpRLe, e.ctx.IntConstBig(lo), t))
-	e.assumeQuiet(e.ctx.RCmp(OpRLe, t, e.ctx.IntConstBig(hi)))
+	e.assumeQuiet(e.ctx.RCmpRaw(OpRLe, e.ctx.IntConstBig(lo), t))
+	e.assumeQuiet(e.ctx.RCmpRaw(OpRLe, t, e.ctx.IntConstBig(hi)))
 	e.ctx.setInfo(t, lo, hi, 0)
 }
 
